@@ -368,6 +368,9 @@ class Engine:
         if dst in INTS:
             if src == 'double':
                 # truncation towards zero
+                if self.cur is not None and self.cur.options.get('prune_real'):
+                    if not self.feasible(st, v < 0): return z3.ToInt(v)
+                    if not self.feasible(st, v >= 0): return -z3.ToInt(-v)
                 r = z3.If(v >= 0, z3.ToInt(v), -z3.ToInt(-v))
                 return r
             if src == 'bool': return z3.If(v, z3.IntVal(1), z3.IntVal(0))
@@ -590,7 +593,11 @@ class Engine:
     # ------------------------------------------------------------ primitive calls
     def libm(self, name, args, st):
         a = [self.to_real(x) for x in args]
-        if name == 'fabs': return z3.If(a[0] >= 0, a[0], -a[0])
+        if name == 'fabs':
+            if self.cur is not None and self.cur.options.get('prune_real') and st is not None:
+                if not self.feasible(st, a[0] < 0): return a[0]
+                if not self.feasible(st, a[0] >= 0): return -a[0]
+            return z3.If(a[0] >= 0, a[0], -a[0])
         if name == 'iabs': return z3.If(args[0] >= 0, args[0], -args[0])
         if name in ('isnan', 'isinf'): return z3.BoolVal(False)      # A1
         if name == 'isfinite': return z3.BoolVal(True)
@@ -886,6 +893,12 @@ class Engine:
                 sym, lit = (a, b) if a.v is None else (b, a)
                 return self.streq(sym, lit.v, st)
             if n == 'real': return self.to_real(args[0])
+            if n == 'trunc':      # conversion double -> int as in C++ (towards zero), same term as the translated cast
+                v = self.to_real(args[0])
+                if self.cur is not None and self.cur.options.get('prune_real'):
+                    if not self.feasible(st, v < 0): return z3.ToInt(v)
+                    if not self.feasible(st, v >= 0): return -z3.ToInt(-v)
+                return z3.If(v >= 0, z3.ToInt(v), -z3.ToInt(-v))
             if n == 'sq': return args[0] * args[0]
             if n == 'cube': return args[0] * args[0] * args[0]
             if n in self.db.specfns:
@@ -1094,7 +1107,7 @@ class Engine:
             if ('::' + gn) not in st.env: st.env['::' + gn] = self.fresh_val(gt, 'glob.' + gn, st)
             cs.env['::' + gn] = st.env['::' + gn]
         for gt, gn in sp.ghosts:
-            cs.ghost[gn] = self.fresh_val({'real': 'double', 'double': 'double', 'int': 'int', 'uint': 'uint', 'bool': 'bool'}.get(gt, gt), 'g.' + gn, cs, constrain=False)
+            cs.ghost[gn] = self.fresh_val({'real': 'double', 'double': 'double', 'int': 'int', 'uint': 'uint', 'bool': 'bool', 'seq': 'seq<double>', 'seq2': 'seq<seq<double>>'}.get(gt, gt), 'g.' + gn, cs, constrain=(gt in ('seq', 'seq2')))
             if gn in st.ghost: cs.ghost[gn] = st.ghost[gn]     # ghost arguments are passed by name
         for p in f.params:
             if p[1] == 'fun' and isinstance(env.get(p[0]), Fun):
@@ -1167,6 +1180,12 @@ class Engine:
         for nm, lv in back:
             if cs.env[nm] is not env[nm]:
                 self.assign_nocheck(lv, cs.env[nm], st)
+        if self.cur is sp and pre_bound is None:
+            # recursive call: the callee is this very function, so it shares (and may have changed) the function-local statics
+            for sn in sorted(getattr(self, 'static_locals', set())):
+                if sn not in st.env: continue
+                st.env[sn] = self.fresh_val(self.vartypes.get(sn), 'static.' + sn, st)
+                for cl in sp.static_invs.get(sn.split('__')[0], []): self.assume_clause(cl.expr, st)
         if ctor_self is not None:
             return cs.env.get('self')
         return res
@@ -1450,6 +1469,15 @@ class Verifier(Engine):
             if s.check() == z3.unsat:
                 self.stats['pruned'] += 1
                 return False
+        elif self.cur is not None and self.cur.options.get('prune_real'):
+            # option prune_real: branch conditions over reals are checked against the (quantifier-free part of the) path condition too
+            s = z3.Solver(); s.set('timeout', 400)
+            for h in st.pc:
+                if not isinstance(h, Quant): s.add(h)
+            s.add(c2)
+            if s.check() == z3.unsat:
+                self.stats['pruned'] += 1
+                return False
         return True
 
     def find_split_call(self, e):
@@ -1515,9 +1543,19 @@ class Verifier(Engine):
                 v = self.e_recctor(IR.E('recctor', s.t, rec=s.t, args=[], ctor=self.default_ctor(s.t[4:]), default=True), st)
             else: v = self.fresh_val(s.t, 'uninit.' + s.name, st)
             if getattr(s, 'static', False):
+                # a function-local static holds whatever earlier calls left in it: arbitrary on entry, constrained only by the
+                # invariant the contract declares for it (which its initialiser must establish and every return must keep)
                 key = '::static.' + s.name
-                if key not in st.env: st.env[key] = self.fresh_val(s.t, 'static.' + s.name, st)
-                v = st.env[key]
+                invs = (self.cur.static_invs.get(s.name.split('__')[0], []) if self.cur is not None else [])
+                if key not in st.env:
+                    if invs:
+                        i0 = st.clone(); i0.env = dict(st.env); i0.env[s.name] = v
+                        for cl in invs: self.check_clause(cl, i0, 'static.%s.initialiser' % s.name, what='initial value satisfies the invariant: ')
+                    st.env[key] = self.fresh_val(s.t, 'static.' + s.name, st)
+                    st.env[s.name] = st.env[key]
+                    for cl in invs: self.assume_clause(cl.expr, st)
+                    self.static_locals = getattr(self, 'static_locals', set()); self.static_locals.add(s.name)
+                v = st.env[s.name] if s.name in st.env else st.env[key]
             st.env[s.name] = v
             if self.cur is not None and getattr(self.cur, 'uses_after', None):
                 for u in self.cur.uses_after.get(s.name.split('__')[0], []):
@@ -1873,7 +1911,7 @@ class Verifier(Engine):
                 st.env[pn] = self.fresh_val(pt, pn, st)
                 self.vartypes[pn] = pt
             for gt, gn in fs.ghosts:
-                t = {'real': 'double', 'double': 'double', 'int': 'int', 'uint': 'uint', 'bool': 'bool', 'long': 'long'}.get(gt, gt)
+                t = {'real': 'double', 'double': 'double', 'int': 'int', 'uint': 'uint', 'bool': 'bool', 'long': 'long', 'seq': 'seq<double>', 'seq2': 'seq<seq<double>>'}.get(gt, gt)
                 st.ghost[gn] = self.fresh_val(t, 'g.' + gn, st, constrain=(t != 'int'))
             for gt, gn in fs.ghost_state:
                 st.env[gn] = self.fresh_val({'real': 'double'}.get(gt, gt), 'gs.' + gn, st, constrain=False)
@@ -1916,6 +1954,10 @@ class Verifier(Engine):
                 for cl in fs.ensures:
                     if cl.engines and 'E2' not in cl.engines: continue
                     self.check_clause(cl, p, 'ensures')
+                for sn, invs in fs.static_invs.items():
+                    live = [k_ for k_ in p.env if k_ == sn or k_.startswith(sn + '__')]
+                    if not live and ('::static.' + sn) not in p.env: continue      # declaration not reached on this path
+                    for cl in invs: self.check_clause(cl, p, 'static.%s.kept' % sn, what='kept at return: ')
                 self.check_frame(fs, f, p)
             missing = [k for k in fs.loops if k not in self.loops_seen]
             if missing and mode == 'accept':
